@@ -190,10 +190,30 @@ def run(eng: Engine, ck: Check):
         aws = [n for n in walk_local(wrapper.node) if isinstance(n, ast.AsyncWith)]
         lock_aws = [a for a in aws if any(mentions_attr(i.context_expr, '_state_lock') for i in a.items)]
         fparam = wsl.params[0] if wsl.params else 'func'
-        fcalls = [c for c in calls_in(wrapper.node) if isinstance(c.func, ast.Name) and c.func.id == fparam]
+        recv_param = wrapper.params[0] if wrapper.params else 'obj'
+        sa_w = single_assignments(wrapper)
+
+        def lookup_of(name: str):
+            """`x = getattr(type(<S>), func.__name__)` -> the expression S (which state's class the method is taken from)."""
+            v = sa_w.get(name)
+            if isinstance(v, ast.Call) and call_name(v) == 'getattr' and len(v.args) >= 2 and isinstance(v.args[0], ast.Call) and \
+                    call_name(v.args[0]) == 'type' and v.args[0].args and f'{fparam}.__name__' in unparse(v.args[1]):
+                return v, v.args[0].args[0]
+            return None
+        # state-method calls of the wrapper: the bound method `func(..)` or a method looked up on a state class
+        fcalls = []
+        for c in calls_in(wrapper.node):
+            if isinstance(c.func, ast.Name) and c.func.id == fparam:
+                fcalls.append((c, 'bound', None, None))
+            elif isinstance(c.func, ast.Name) and lookup_of(c.func.id):
+                lk, sexpr = lookup_of(c.func.id)
+                fcalls.append((c, 'looked-up', lk, sexpr))
         ck.floor('R-C03-LOCKED.funccall', len(fcalls), 1)
-        for c in fcalls:
-            inside = any(a in lock_aws for a in ancestors(c))
+
+        def inside_lock(n: ast.AST) -> bool:
+            return any(a in lock_aws for a in ancestors(n))
+        for c, kind, lk, sexpr in fcalls:
+            inside = inside_lock(c)
             awaited_here = isinstance(parent(c), ast.Await)
             ck.ob('R-C03-LOCKED', wrapper, c, 'the wrapped state method is called AND awaited inside `async with transfer._state_lock`',
                   inside and awaited_here, f'inside lock: {inside}; awaited at the call: {awaited_here} '
@@ -203,20 +223,33 @@ def run(eng: Engine, ck: Check):
         ck.ob('R-C03-LOCKED', wrapper, wrapper.node, 'nothing is awaited outside the lock in the wrapper', not other_awaits,
               f'awaits outside the lock: {[unparse(a)[:40] for a in other_awaits]}', construct='no await outside lock')
         # ---- R-C03-DISPATCH: the operation must run on the *current* state
-        recv_param = wrapper.params[0] if wrapper.params else 'obj'
-        for c in fcalls:
-            def ident(e, pol):
-                a = cmp_atom(e)
-                return bool(a and a[0] == 'is' and pol and mentions_attr(e, 'state') and mentions_name(e, recv_param))
-            g = next((x for x in expanded_guards(eng, wrapper, c) if ident(x[0], x[1])), None)
-            # or: the callee is looked up on the current state after the lock was taken
-            redispatch = not (isinstance(c.func, ast.Name) and c.func.id == fparam)
+        for c, kind, lk, sexpr in fcalls:
+            if kind == 'bound':
+                def ident(e, pol):
+                    a = cmp_atom(e)
+                    return bool(a and a[0] == 'is' and pol and mentions_attr(e, 'state') and mentions_name(e, recv_param))
+                g = next((x for x in expanded_guards(eng, wrapper, c) if ident(x[0], x[1])), None)
+                ok = g is not None
+                why = (f'`{unparse(c)}` runs the method bound to the state object that was current when the caller looked it up, '
+                       'not when the lock was obtained')
+            else:
+                # the method is looked up on the class of a state: that state must be READ under the lock, the lookup must happen
+                # under the lock, and the call must receive that same state
+                s_local = sexpr.id if isinstance(sexpr, ast.Name) else None
+                s_def = sa_w.get(s_local) if s_local else sexpr
+                def_node = next((n for n in walk_local(wrapper.node) if isinstance(n, ast.Assign) and isinstance(n.targets[0], ast.Name)
+                                 and n.targets[0].id == s_local), None) if s_local else lk
+                reads_state = s_def is not None and mentions_attr(s_def, 'state')
+                read_locked = def_node is not None and inside_lock(def_node)
+                lookup_stmt = next((n for n in walk_local(wrapper.node) if isinstance(n, ast.Assign) and n.value is lk), None)
+                lookup_locked = lookup_stmt is not None and inside_lock(lookup_stmt)
+                same_recv = bool(c.args) and unparse(c.args[0]) == unparse(sexpr)
+                ok = reads_state and read_locked and lookup_locked and same_recv
+                why = (f'method looked up by `{unparse(lk)}`: state read under the lock: {read_locked}; lookup under the lock: {lookup_locked}; '
+                       f'called on that same state: {same_recv} — a method chosen before the lock was obtained belongs to a state the transfer may have left')
             ck.ob('R-C03-DISPATCH', wrapper, c,
-                  'under the lock the operation runs on the transfer\'s current state object (identity re-check or re-dispatch '
-                  'after acquiring the lock); a stale state object must not transition',
-                  g is not None or redispatch,
-                  f'`{unparse(c)}` runs the method bound to the state object that was current when the caller looked it up, '
-                  'not when the lock was obtained', construct='dispatch on current state')
+                  'under the lock the operation runs on the transfer\'s current state object (identity re-check, or re-dispatch on the state read '
+                  'after acquiring the lock); a stale state object must not transition', ok, why, construct=f'dispatch on current state ({kind})')
 
     # ---- R-C03-MANAGER
     for q, target in (('TransferManager.abort', 'ABORTED'), ('TransferManager.queue', 'QUEUED'), ('TransferManager.pause', 'PAUSED')):
